@@ -50,10 +50,17 @@ package prober
 //@   ensures [C18.interval-positive] result > 0
 
 //@ autotagfn term backoff C18
+// bkIter(x, m, n): the value of the growth loop started at x with n retries left (tail-recursive, mirrors the loop).
+// Its monotonicity in n (for x >= 0) and the monotonicity of the final conversion are proved as lemmas
+// (/verif/contracts/lemmas/backoff_*.smt2, by induction on n with the induction hypothesis instantiated by hand);
+// together with the two clauses below they give: backoff(b, m, r) <= backoff(b, m, r+1) for 0 <= b <= m.
+//@ uf bkIter(float64, float64, int) float64
+//@ rawaxiom uf_bkIter :: (forall ((x (_ FloatingPoint 11 53)) (m (_ FloatingPoint 11 53)) (n Int)) (! (= (uf_bkIter x m n) (ite (and (fp.lt x m) (> n 0)) (uf_bkIter (fp.mul RNE x ((_ to_fp 11 53) RNE 1.5)) m (- n 1)) x)) :pattern ((uf_bkIter x m n))))
 //@ func backoff
 //@   ensures [C18.backoff-lower] baseDelay <= maxDelay ==> result >= baseDelay
 //@   ensures [C18.backoff-upper] baseDelay <= maxDelay ==> result <= maxDelay
-//@   loop 1 invariant max == tofloat(maxDelay) && !isnan(backoff) && (0 <= baseDelay ==> backoff >= tofloat(baseDelay))
+//@   ensures [C18.backoff-value] result == ite(bkIter(tofloat(baseDelay), tofloat(maxDelay), retries) >= tofloat(maxDelay), maxDelay, ite(max(baseDelay, toint(bkIter(tofloat(baseDelay), tofloat(maxDelay), retries))) > maxDelay, maxDelay, max(baseDelay, toint(bkIter(tofloat(baseDelay), tofloat(maxDelay), retries)))))
+//@   loop 1 invariant max == tofloat(maxDelay) && !isnan(backoff) && same(bkIter(backoff, max, retries), bkIter(tofloat(baseDelay), tofloat(maxDelay), old(retries)))
 //@   loop 1 decreases retries
 //@ func init$1
 //@   requires [C18.assume-validated-size] size >= 0
